@@ -58,11 +58,13 @@ class Env:
         # a subscriber by name that got its notifier from register() while it was still empty, and subscribes to it only after
         # somebody else registered the same name again: it is a subscriber like any other
         self.got_named = {"session": [], "region": []}
+        self._held = {}
+        self.named_on = False
         for lvl, mh in (("session", self.sh), ("region", self.rh)):
             ev_ = mh.register("CompletePingCheck")
             mh.register("CompletePingCheck")
             mh.register("ChatFromSimulator")
-            ev_.subscribe(lambda m, lvl=lvl: self.got_named[lvl].append((m.packet_id, m.name)))
+            self._held[lvl] = ev_        # subscribed to only after the first datagram has arrived (see recv)
         # coroutine subscribers (two per level): each is run once per delivery, like any other subscriber
         self.got_async = {"session": {"a1": [], "a2": []}, "region": {"a1": [], "a2": []}}
         for lvl, mh in (("session", self.sh), ("region", self.rh)):
@@ -80,7 +82,14 @@ class Env:
             finally:
                 for _ in range(3):
                     await asyncio.sleep(0)
-        self.loop.run_until_complete(go())
+        try:
+            self.loop.run_until_complete(go())
+        finally:
+            if not self.named_on:
+                # packets of that name may have come and gone while the notifier had no subscriber: it is still the notifier
+                self.named_on = True
+                for lvl, ev_ in self._held.items():
+                    ev_.subscribe(lambda m, lvl=lvl: self.got_named[lvl].append((m.packet_id, m.name)))
 
     def close(self):
         self._bc.dt = self._dt
@@ -178,6 +187,7 @@ def bounded_arrivals(reg, tier, seed):
                     trace.append((ev, pid, reliable, acks))
                     before = {k: len(v) for k, v in env.got.items()}
                     before_named = {k: len(v) for k, v in env.got_named.items()}
+                    named_was_on = env.named_on
                     before_async = {k: {n_: len(v_) for n_, v_ in d_.items()} for k, d_ in env.got_async.items()}
                     try:
                         env.recv(ser.serialize(m))
@@ -198,7 +208,7 @@ def bounded_arrivals(reg, tier, seed):
                             if n_async != n_new and raise_in is None:
                                 fail("client/dispatch", f"coroutine subscriber {nm_} at {lvl} level was run {n_async} times for a packet the plain subscriber "
                                      f"got {n_new} times", {"trace": [str(t) for t in trace[-8:]], "level": lvl})
-                        if n_named != n_new and not (lvl == "region" and raise_in == "session") and raise_in is None:
+                        if named_was_on and n_named != n_new and not (lvl == "region" and raise_in == "session") and raise_in is None:
                             fail("client/dispatch", f"the by-name subscriber at {lvl} level got {n_named} deliveries where the wildcard subscriber got {n_new}",
                                  {"trace": [str(t) for t in trace[-8:]], "level": lvl})
                         if reliable:
